@@ -3,6 +3,7 @@ package main
 import (
 	"fmt"
 	"go/constant"
+	"go/token"
 	"go/types"
 	"sort"
 	"strings"
@@ -422,6 +423,29 @@ func rulePermutationInsensitive(c *Ctx) {
 		key := "input." + fn.Name() + "/no-positional-access"
 		c.Fn(shortFn(fn))
 		bad := ""
+		sortedVars, _ := canonicalSorts(fn)
+		if p := fn.Parent(); p != nil {
+			if _, lessFns := canonicalSorts(p); lessFns[fn] {
+				c.OK("R20.4", key, c.P.Pos(fn.Pos()), "the comparator of a sort by the elements' own values")
+				continue
+			}
+		}
+		afterCanonicalSort := func(x *ssa.IndexAddr) bool {
+			v := x.X
+			if ld, ok := v.(*ssa.UnOp); ok && ld.Op == token.MUL {
+				if a, isA := ld.X.(*ssa.Alloc); isA {
+					v = a
+				}
+			}
+			sc := sortedVars[v]
+			if sc == nil {
+				return false
+			}
+			if sc.Block() == x.Block() {
+				return instrBefore(sc, x)
+			}
+			return sc.Block().Dominates(x.Block())
+		}
 		for _, b := range fn.Blocks {
 			for _, in := range b.Instrs {
 				switch x := in.(type) {
@@ -431,6 +455,9 @@ func rulePermutationInsensitive(c *Ctx) {
 					}
 					if allocRooted(x.X) {
 						continue // the variadic argument array being built for a call
+					}
+					if afterCanonicalSort(x) {
+						continue // a copy put into an order that its contents determine: positions say nothing about discovery order
 					}
 					if _, isConst := x.Index.(*ssa.Const); isConst {
 						bad = fmt.Sprintf("element selected by constant position at %s: the result depends on discovery order", c.P.Pos(x.Pos()))
@@ -960,4 +987,122 @@ func writesThrough(p *Program, v ssa.Value, depth int) bool {
 		}
 	}
 	return false
+}
+
+// canonicalSorts: slices of fn that are put into an order determined by their contents alone before they are looked at by
+// position - sort.Slice / sort.SliceStable / slices.SortFunc with a comparator that compares the elements themselves
+// (`s[i] < s[j]`, elements of a basic ordered type: a total order, ties are identical values), or slices.Sort / sort.Ints /
+// sort.Strings. Returned: per sorted variable (the local cell it lives in, or the value) the sort call, and the comparator
+// closures that only serve such a sort. Positions in such a slice after the sort say nothing about discovery order.
+func canonicalSorts(fn *ssa.Function) (map[ssa.Value]*ssa.Call, map[*ssa.Function]bool) {
+	sorted := map[ssa.Value]*ssa.Call{}
+	lessFns := map[*ssa.Function]bool{}
+	root := func(v ssa.Value) ssa.Value {
+		for i := 0; i < 3; i++ {
+			switch x := v.(type) {
+			case *ssa.MakeInterface:
+				v = x.X
+			case *ssa.ChangeType:
+				v = x.X
+			}
+		}
+		if ld, ok := v.(*ssa.UnOp); ok && ld.Op == token.MUL {
+			if a, isA := ld.X.(*ssa.Alloc); isA {
+				return a
+			}
+		}
+		return v
+	}
+	basicOrdered := func(t types.Type) bool {
+		sl, ok := t.Underlying().(*types.Slice)
+		if !ok {
+			return false
+		}
+		b, ok := sl.Elem().Underlying().(*types.Basic)
+		return ok && b.Info()&types.IsOrdered != 0
+	}
+	ownValueLess := func(less *ssa.Function, cell ssa.Value) bool {
+		if less == nil || len(less.Blocks) != 1 || len(less.Params) != 2 {
+			return false
+		}
+		ret, ok := less.Blocks[0].Instrs[len(less.Blocks[0].Instrs)-1].(*ssa.Return)
+		if !ok || len(ret.Results) != 1 {
+			return false
+		}
+		bo, ok := ret.Results[0].(*ssa.BinOp)
+		if !ok || !(bo.Op == token.LSS || bo.Op == token.GTR) {
+			return false
+		}
+		elem := func(v ssa.Value, p *ssa.Parameter) bool {
+			ld, ok := v.(*ssa.UnOp)
+			if !ok || ld.Op != token.MUL {
+				return false
+			}
+			ia, ok := ld.X.(*ssa.IndexAddr)
+			if !ok || ia.Index != ssa.Value(p) {
+				return false
+			}
+			sl, ok := ia.X.(*ssa.UnOp)
+			if !ok || sl.Op != token.MUL {
+				return false
+			}
+			fv, ok := sl.X.(*ssa.FreeVar)
+			if !ok {
+				return false
+			}
+			// the captured cell is the sorted variable
+			for i, f := range less.FreeVars {
+				if f == fv {
+					for _, b := range less.Parent().Blocks {
+						for _, in := range b.Instrs {
+							if mc, isMC := in.(*ssa.MakeClosure); isMC && mc.Fn == ssa.Value(less) && i < len(mc.Bindings) && mc.Bindings[i] == cell {
+								return true
+							}
+						}
+					}
+				}
+			}
+			return false
+		}
+		return elem(bo.X, less.Params[0]) && elem(bo.Y, less.Params[1]) || elem(bo.X, less.Params[1]) && elem(bo.Y, less.Params[0])
+	}
+	for _, b := range fn.Blocks {
+		for _, in := range b.Instrs {
+			call, ok := in.(*ssa.Call)
+			if !ok {
+				continue
+			}
+			callee := call.Call.StaticCallee()
+			if callee == nil {
+				continue
+			}
+			if o := callee.Origin(); o != nil {
+				callee = o
+			}
+			if callee.Object() == nil || callee.Object().Pkg() == nil || len(call.Call.Args) < 1 {
+				continue
+			}
+			full := callee.Object().Pkg().Path() + "." + callee.Object().Name()
+			r := root(call.Call.Args[0])
+			switch {
+			case full == "sort.Ints" || full == "sort.Strings" || full == "sort.Float64s" || full == "slices.Sort":
+				sorted[r] = call
+			case (full == "sort.Slice" || full == "sort.SliceStable" || full == "slices.SortFunc" || full == "slices.SortStableFunc") && len(call.Call.Args) >= 2:
+				mc, ok := call.Call.Args[1].(*ssa.MakeClosure)
+				if !ok {
+					continue
+				}
+				less, _ := mc.Fn.(*ssa.Function)
+				st := call.Call.Args[0].Type()
+				if mi, isMI := call.Call.Args[0].(*ssa.MakeInterface); isMI {
+					st = mi.X.Type()
+				}
+				if basicOrdered(st) && ownValueLess(less, r) {
+					sorted[r] = call
+					lessFns[less] = true
+				}
+			}
+		}
+	}
+	return sorted, lessFns
 }
